@@ -7,6 +7,7 @@ use std::io::{BufRead, Write};
 #[macro_use]
 mod util;
 mod txgen;
+mod addr;
 include!("registry.rs");
 
 pub struct Out {
